@@ -202,8 +202,69 @@ def parse_info(query):
     return True, names
 
 
+PROBE_SELF_DEFAULT = r"""
+import asyncio, faulthandler, sys
+faulthandler.dump_traceback_later(%d, exit=True)
+from vt import boot
+boot.init()
+from tartiflette import create_engine, Resolver
+@Resolver("Query.f", schema_name="vt_probe_selfdefault")
+async def f(parent, args, ctx, info):
+    return 1
+async def main():
+    e = await create_engine("input In { a: Int d: In! = {a: 1} }\ntype Query { f(i: In): Int }", schema_name="vt_probe_selfdefault")
+    print("BUILT", flush=True)
+    r = await e.execute("{ f(i: {a: 2}) }")
+    print("RETURNED", isinstance(r, dict) and "data" in r, flush=True)
+try:
+    asyncio.run(main())
+except BaseException as ex:
+    print("RAISED", type(ex).__name__, flush=True)
+"""
+
+
+def probe_self_referential_default(ctx):
+    """One deterministic probe in its own process (the expansion keeps the loop busy with ever new tasks: the request is never quiescent
+    and never done, so a watchdog outside the loop decides): an input type whose non-null field of its own type has a default omitting that field."""
+    import os
+    import subprocess
+    import sys
+    st = ctx.stats
+    env = dict(os.environ, PYTHONPATH=os.pathsep.join(p for p in sys.path if p), PYTHONDONTWRITEBYTECODE="1")
+    try:
+        r = subprocess.run([sys.executable, "-c", PROBE_SELF_DEFAULT % 12], env=env, capture_output=True, text=True, timeout=90)
+    except subprocess.TimeoutExpired:
+        st.inc("probe_self_default:inconclusive-outer-watchdog")
+        return
+    out, err = r.stdout, r.stderr
+    st.inc("probe_self_default:runs")
+    if "BUILT" not in out:
+        st.inc("probe_self_default:schema-refused-or-not-reached")      # refused at build time: nothing to answer
+        return
+    if "RETURNED True" in out:
+        st.inc("probe_self_default:returned")
+        return
+    case = {"sdl": "input In { a: Int d: In! = {a: 1} }\ntype Query { f(i: In): Int }", "query": "{ f(i: {a: 2}) }",
+            "stderr_tail": err[-1500:]}
+    if "RAISED" in out or "RETURNED False" in out:
+        ctx.violation("execute-raised", "self-referential input default: %s" % out.strip()[-200:], case)
+        return
+    # no answer after 12 s: a verdict only when the interpreter was caught INSIDE the literal coercers (still expanding);
+    # anything else (slow machine, stuck elsewhere) is counted and left undecided
+    top = [ln for ln in err.splitlines() if ln.strip().startswith("File ")][:8]
+    # innermost frames: asyncio's task creation called from the literal coercers, the coercers themselves, then the event loop
+    if any("tartiflette/coercers/literals/" in ln for ln in top):
+        top = [ln for ln in top if "tartiflette/" in ln]
+        ctx.violation("execute-never-returns", "still expanding the default of In.d after 12 s: %s" % " <- ".join(
+            ln.strip()[:90] for ln in top[:3]), case, "self-referential-input-default-expands-forever")
+    else:
+        st.inc("probe_self_default:inconclusive")
+
+
 async def run_case(ctx, rng, index):
     st = ctx.stats
+    if index == 0:
+        probe_self_referential_default(ctx)
     s = smodel.gen_schema(rng, smodel.GenOpts(p_mutation=0.3, p_schema_pass=0.2))
     kind = rng.choice(["default", "stamping", "stamping", "rewriting", "yielding", "annotating", "annotating"])
     coercer = None if kind == "default" else Coercer(kind)
